@@ -110,6 +110,9 @@ class World:
         self.class_src = {}    # ref class name -> (rel, classname)
         self.trusted = []      # free-text trusted-base entries
         self.ufunc_facts = {}
+        self.callable_recs = {}     # record type name -> python function(ex, recv, args, kwargs, node) modelling __call__
+        self.ext_funcs = {}         # source text of a callee expression -> assumed contract dict (code outside reach)
+        self.opaque_exprs = {}      # source text of a constant expression -> type (opaque fixed value)
         self.ext_methods = {}       # 'Cls.method' -> Contract-like dict for code outside reach (assumed; listed)
         self.partial_types = {}     # function name -> record type modelling functools.partial(f, **kw) objects
         self.definitional = set()   # macro names that are defining equations of ufuncs (may be instantiated as lemmas)
@@ -140,8 +143,8 @@ class World:
         return ty
     def any(self, name, truthy=None):
         ty = TAny(name, truthy); self.types[name] = ty; return ty
-    def refclass(self, name, fields, rel=None, cls=None):
-        self.types[name] = TRef(name); self.classes[name] = dict(fields)
+    def refclass(self, name, fields, rel=None, cls=None, truthy=None, universal=False):
+        self.types[name] = TRef(name, truthy, universal); self.classes[name] = dict(fields)
         if rel: self.class_src[name] = (rel, cls or name)
         return self.types[name]
     def alias(self, name, tystr): self.types[name] = self.ty(tystr)
@@ -343,6 +346,10 @@ class Exec:
         if name in self.w.types: return TypeObj(self.w.types[name])
         raise Unsupported('unresolved name %r in %s' % (name, rel))
 
+    def lookup_nested(self, rel, qual):
+        node, cls = repo.find_def(rel, qual)
+        return FuncRef(rel, qual, node, cls)
+
     def class_obj(self, rel, name):
         m = repo.module(rel); node = m.classes[name]
         if self.is_exc_class(rel, node): return ExcClass(name)
@@ -412,6 +419,12 @@ class Exec:
 
     # ---------------- expressions
     def eval(self, node):
+        if self.w.opaque_exprs and isinstance(node, (ast.Attribute, ast.Name)):
+            txt = ast.unparse(node)
+            if txt in self.w.opaque_exprs:
+                ty = self.w.ty(self.w.opaque_exprs[txt])
+                self.vf.note_assumption('expression `%s` treated as an opaque constant of type %s' % (txt, ty))
+                return unpack(z3.Const('opq_' + ''.join(ch if ch.isalnum() else '_' for ch in txt), sort_of(ty)), ty)
         meth = getattr(self, 'e_' + type(node).__name__, None)
         if meth is None: raise Unsupported('expression %s' % type(node).__name__)
         return meth(node)
@@ -429,7 +442,19 @@ class Exec:
     def e_Name(self, n): return self.lookup(n.id, n)
 
     def e_Tuple(self, n):
-        if any(isinstance(e, ast.Starred) for e in n.elts): raise Unsupported('starred tuple')
+        if any(isinstance(e, ast.Starred) for e in n.elts):
+            seq = None; items = []
+            def flush(seq, items):
+                if not items: return seq
+                lit = seq_literal(items, T._join_all([i.ty for i in items] + ([seq.ty.elem] if seq is not None else [])))
+                return lit if seq is None else self.seq_concat(seq, lit)
+            for e in n.elts:
+                if isinstance(e, ast.Starred):
+                    seq = flush(seq, items); items = []
+                    sv = self.iter_of(self.eval(e.value)); sv = self.materialize(sv)
+                    seq = sv if seq is None else self.seq_concat(seq, sv)
+                else: items.append(self.val(self.eval(e)))
+            return flush(seq, items)
         vals = [self.val(self.eval(e)) for e in n.elts]
         return V(TTuple([v.ty for v in vals]), vals)
 
@@ -629,6 +654,9 @@ class Exec:
             r = self.contains(self.val(b) if not isinstance(b, IterV) else b, self.val(a))
             return r if isinstance(op, ast.In) else z3.Not(r)
         a = self.val(a); b = self.val(b)
+        for x, y in ((a, b), (b, a)):
+            if isinstance(x.ty, TRef) and x.ty.universal and y.ty in (TStr, TInt, TBool):
+                for fct in T.box_facts(y, T.box_term(y)): self.assume(fct)
         if isinstance(op, ast.Eq): return veq(a, b)
         if isinstance(op, ast.NotEq): return z3.Not(veq(a, b))
         x, y = self.ord_terms(a, b)
@@ -862,6 +890,12 @@ class Exec:
         """coerce with Optional narrowing: Opt[T] -> T is allowed when the value is provably not None on this path
         (otherwise the None case raises TypeError, like using None where an object is required would)"""
         v = self.val(v)
+        if isinstance(ty, TRef) and ty.universal and v.ty in (TStr, TInt, TBool):
+            r = coerce(v, ty)
+            for fct in T.box_facts(v, r.t): self.assume(fct)
+            return r
+        if isinstance(v.ty, TRef) and v.ty.universal and isinstance(ty, TSeq):
+            return coerce(self.materialize(self.iter_of(v)), ty)
         try: return coerce(v, ty)
         except Unsupported:
             if isinstance(v.ty, TOpt) and not isinstance(ty, TOpt):
@@ -919,9 +953,12 @@ class Exec:
             i2 = z3.simplify(z3.If(i < 0, i + ln, i))
             return seq_get(obj, i2)
         if isinstance(ty, TMap):
-            k = pack(coerce(idx, ty.k))
+            k = pack(self.co(idx, ty.k))
             if not self.spec and self.branch(z3.Not(z3.Select(obj.t[0], k)), exceptional=True): self.raise_exc('KeyError')
             return unpack(z3.Select(obj.t[1], k), ty.v)
+        if isinstance(ty, TRef) and ty.universal:
+            self.vf.note_assumption('an opaque object used as a sequence: its items/length are uninterpreted (TypeError/IndexError not modelled)')
+            return V(ty, z3.Function('obj_item', sort_of(ty), z3.IntSort(), sort_of(ty))(obj.t, coerce(idx, TInt).t))
         if ty is TStr:
             i = coerce(idx, TInt).t; ln = z3.Length(obj.t)
             if not self.spec and self.branch(z3.Or(i >= ln, i < -ln), exceptional=True): self.raise_exc('IndexError')
@@ -995,6 +1032,10 @@ class Exec:
         x = self.val(x)
         ty = x.ty
         if isinstance(ty, TSeq): return IterV(x.t[0], lambda i: seq_get(x, i), ty.elem)
+        if isinstance(ty, TRef) and ty.universal:
+            self.vf.note_assumption('an opaque object used as a sequence: its items/length are uninterpreted (TypeError/IndexError not modelled)')
+            ln = z3.Function('obj_len', sort_of(ty), z3.IntSort())(x.t); self.assume(ln >= 0)
+            return IterV(ln, lambda i: V(ty, z3.Function('obj_item', sort_of(ty), z3.IntSort(), sort_of(ty))(x.t, i)), ty)
         if isinstance(ty, (TTuple, TRec)):
             items = x.t if isinstance(ty, TTuple) else [x.t[f] for f, _ in ty.fields]
             if not items: return IterV(z3.IntVal(0), lambda i: NONE, None)
@@ -1019,7 +1060,15 @@ class Exec:
                 for k, v in st.heap.items():
                     if k not in self.old.heap: self.old.heap[k] = v
                 self.st = saved
-        f = self.eval(n.func)
+        if not self.spec and (self.w.ext_funcs or self.frame.get('ext_funcs')):
+            txt = ast.unparse(n.func)
+            if txt in (self.frame.get('ext_funcs') or {}):
+                f = ExtMethod(None, txt)
+            elif txt in self.w.ext_funcs:
+                f = ExtMethod(None, txt)
+            else: f = self.eval(n.func)
+        else:
+            f = self.eval(n.func)
         args = []
         for a in n.args:
             if isinstance(a, ast.Starred):
@@ -1048,7 +1097,12 @@ class Exec:
         if isinstance(f, ClassRef): return self.construct(f, args, kwargs, node)
         if isinstance(f, LambdaV): return self.call_lambda(f, args)
         if isinstance(f, TypeObj): return self.construct_type(f.ty, args, kwargs)
-        raise Unsupported('call of %s' % type(f).__name__)
+        if isinstance(f, V) and isinstance(f.ty, TOpt):
+            if self.branch(f.t[0], exceptional=True): self.raise_exc('TypeError')
+            f = f.t[1]
+        if isinstance(f, V) and isinstance(f.ty, TRec) and f.ty.name in self.w.callable_recs:
+            return self.w.callable_recs[f.ty.name](self, f, args, kwargs, node)
+        raise Unsupported('call of %s' % (f.ty if isinstance(f, V) else type(f).__name__))
 
     def call_lambda(self, f, args):
         saved = self.st.env
@@ -1291,7 +1345,8 @@ class Exec:
     def ext_call(self, f, args, kwargs, node):
         """call of a method that lives outside the verified code base (Cython, other process, callback):
         only its declared contract is known.  Its `requires` are proof obligations at this call site."""
-        c = self.w.ext_methods[f.key]
+        c = (self.frame.get('ext_funcs') or {}).get(f.key) or self.w.ext_methods.get(f.key) or self.w.ext_funcs[f.key]
+        self.vf.note_assumption('assumed contract of code outside reach: %s' % f.key)
         pnames = list(c['params'])
         pos = [a for a in args if not isinstance(a, tuple)]
         vals = {}
@@ -1299,13 +1354,21 @@ class Exec:
         for k, a in kwargs.items():
             if k in c['params']: vals[k] = self.co(a, self.w.ty(c['params'][k]))
         for nme in pnames:
-            if nme not in vals: raise Unsupported('ext call %s: missing argument %s' % (f.key, nme))
+            if nme not in vals:
+                if nme in c.get('optional', ()): continue
+                raise Unsupported('ext call %s: missing argument %s' % (f.key, nme))
         ordinal = self.call_counts.get(f.key, 0); self.call_counts[f.key] = ordinal + 1
         site = '%s@%s#%d' % (f.key, self.frame_name(), ordinal)
-        env = dict(vals); env['self'] = f.recv
+        env = dict(vals)
+        if f.recv is not None: env['self'] = f.recv
         me = self.frame.get('contract')
+        gspec = (me.call_ghost if me else {}).get(f.key) or {}
         for g, gty in c.get('ghost', {}).items():
-            if g in self.st.env: env[g] = coerce(self.val(self.st.env[g]), self.w.ty(gty))
+            if g in gspec:
+                self.spec += 1
+                try: env[g] = coerce(self.val(self.eval(self.vf.parse_spec(gspec[g]))), self.w.ty(gty))
+                finally: self.spec -= 1
+            elif g in self.st.env: env[g] = coerce(self.val(self.st.env[g]), self.w.ty(gty))
             else: raise Unsupported('no ghost argument %s for ext call %s' % (g, site))
         for s_ in c.get('state', []):
             if s_ in self.st.env: env[s_] = self.st.env[s_]
@@ -1413,6 +1476,9 @@ class Exec:
         e = self.eval(st.exc)
         if isinstance(e, ExcClass): e = ExcV(e.name)
         if isinstance(e, V) and e.ty is TExc: e = e.t
+        if isinstance(e, V) and isinstance(e.ty, TRef) and e.ty.universal:
+            # an exception object received as data (e.g. unpickled from a worker): class unknown, carried as payload
+            e = ExcV('Exception', [], {'obj': e})
         if not isinstance(e, ExcV): raise Unsupported('raise of non-exception')
         raise RaiseSig(e)
     def s_AsyncFunctionDef(self, st): self.s_FunctionDef(st)
@@ -1442,7 +1508,8 @@ class Exec:
                 v = coerce(v, self.w.ty(self.frame['var_types'][target.id]))
             self.st.env[target.id] = v
         elif isinstance(target, (ast.Tuple, ast.List)):
-            if any(isinstance(e, ast.Starred) for e in target.elts): raise Unsupported('starred unpacking')
+            if any(isinstance(e, ast.Starred) for e in target.elts):
+                return self.assign_starred(target, v)
             items = self.unpack_n(v, len(target.elts))
             for t, x in zip(target.elts, items): self.assign(t, x)
         elif isinstance(target, ast.Attribute):
@@ -1450,6 +1517,8 @@ class Exec:
             if isinstance(obj.ty, TOpt):
                 if self.branch(obj.t[0], exceptional=True): self.raise_exc('AttributeError')
                 obj = obj.t[1]
+            if obj.ty is TExc:
+                obj.t.attrs[target.attr] = self.val(v); return
             if not isinstance(obj.ty, TRef): raise Unsupported('attribute store on %r' % obj.ty)
             self.heap_write(obj, target.attr, self.val(v))
         elif isinstance(target, ast.Subscript):
@@ -1457,12 +1526,33 @@ class Exec:
             self.assign(target.value, setitem(self, recv, k, self.val(v)))
         else: raise Unsupported('assignment target %s' % type(target).__name__)
 
+    def assign_starred(self, target, v):
+        elts = target.elts
+        k = [i for i, e in enumerate(elts) if isinstance(e, ast.Starred)]
+        if len(k) != 1 or k[0] != len(elts) - 1: raise Unsupported('starred unpacking other than `a, ..., *rest`')
+        nfix = len(elts) - 1
+        if isinstance(v, IterV): v = self.materialize(v)
+        v = self.val(v)
+        if isinstance(v.ty, TTuple):
+            if len(v.t) < nfix: self.raise_exc('ValueError')
+            for t, x in zip(elts[:nfix], v.t): self.assign(t, x)
+            rest = v.t[nfix:]
+            self.assign(elts[-1].value, V(TTuple([x.ty for x in rest]), rest)); return
+        if not isinstance(v.ty, TSeq): raise Unsupported('starred unpacking of %r' % v.ty)
+        if self.branch(v.t[0] < nfix, exceptional=True): self.raise_exc('ValueError')
+        for i, t in enumerate(elts[:nfix]): self.assign(t, seq_get(v, z3.IntVal(i)))
+        j = fresh('si', z3.IntSort())
+        self.assign(elts[-1].value, V(v.ty, (v.t[0] - nfix, z3.Lambda([j], v.t[1][j + nfix]))))
+
     def unpack_n(self, v, n):
         if isinstance(v, IterV): v = self.materialize(v)
         v = self.val(v)
         if isinstance(v.ty, TOpt):
             if self.branch(v.t[0], exceptional=True): self.raise_exc('TypeError')
             v = v.t[1]
+        if isinstance(v.ty, TRef) and v.ty.universal:
+            self.vf.note_assumption('an opaque object used as a sequence: its items/length are uninterpreted (TypeError/IndexError not modelled)')
+            return [V(v.ty, z3.Function('obj_item', sort_of(v.ty), z3.IntSort(), sort_of(v.ty))(v.t, z3.IntVal(i))) for i in range(n)]
         if isinstance(v.ty, TTuple):
             if len(v.t) != n: self.raise_exc('ValueError')
             return v.t
